@@ -18,11 +18,12 @@
       search only.
 
    2. MODELS.  Totality theorems of the executable models that carry an [outcome], restated here: Slice::transform
-      (RIO.Marker) and the element-tree cursor of the HTML body visitors (RIO.C07Models).  The tokenizer model
-      (RIO.HtmlTok) checks every one of its sites, but its totality theorem is not in the tree yet.
+      (RIO.Marker), the element-tree cursor of the HTML body visitors (RIO.C07Models) and the HTML tokenizer
+      (RIO.HtmlTok, theorem RIO.HtmlTokProofs.total = C16_total).
 
    3. SEARCH.  Not a theorem: grammar-then-mutate inputs through every public entry point under catch_unwind
       (RIO.C07Run gives the verdict on each observation). *)
+Require RIO.TokMonad RIO.HtmlTok RIO.C16Run RIO.HtmlTokProofs.
 Require Import RIO.Base RIO.Marker RIO.MarkerProofs RIO.C07Models RIO.C07Run.
 Require Import RIOGen.ExtPanicSites.
 Close Scope N_scope.
@@ -80,7 +81,7 @@ Proof. vm_compute. repeat split; reflexivity. Qed.
 (* how the sites are justified: lemma / guard / out-of-model / searched (codes 1 2 3 4), and nothing else *)
 Theorem C07_ledger_census :
   (length panic_sites, count_class 1 ledger_classes, count_class 2 ledger_classes, count_class 3 ledger_classes,
-   count_class 4 ledger_classes) = (344, 18, 125, 38, 163)
+   count_class 4 ledger_classes) = (344, 87, 125, 38, 94)
   /\ forallb (fun c => N.leb 1 c && N.leb c 4) ledger_classes = true.
 Proof. vm_compute. split; reflexivity. Qed.
 
@@ -98,6 +99,19 @@ Proof. exact slice_total. Qed.
 Theorem C07_visitor_cursor_total : forall (len : N) (calls : list vcall) (pos : N), (pos < len)%N ->
   exists p, v_run len calls pos = Ok p /\ (p < len)%N.
 Proof. exact visitor_cursor_total. Qed.
+
+(* the HTML tokenizer (src/html/mod.rs, impl Tokenizer): the model RIO.HtmlTok checks every index, slice and unsigned
+   subtraction of next / the read_* states / raw / buffered / text / tag_name / tag_attr (56 sites, table at the top of
+   HtmlTok.v) and runs every loop and the script-state recursion on fuel.  For EVERY input, context tag and lowercase
+   oracle that is ASCII lowercasing on the ten raw-text element names (true of String::to_lowercase: those names are
+   ASCII), the driver that calls next until ErrorToken and every accessor on every token never reports Panic and, with
+   fuel |input| + 1, never OutOfFuel.  Proof: RIO.HtmlTokProofs.total (pinned as C16_total); the tie between the model
+   and the crate is the C16 correspondence run.  Stack depth of the script-state recursion is NOT covered (fuel bounds
+   the number of calls, not the frames) *)
+Theorem C07_tokenizer_total : forall (lower : str -> str) (ctx : str) (fuel : nat) (b : str),
+  RIO.HtmlTokProofs.lower_ok lower -> length b + 1 <= fuel ->
+  exists r, RIO.C16Run.tokenize_all lower ctx fuel b = Ok r.
+Proof. exact RIO.HtmlTokProofs.total. Qed.
 
 (* hence the verdict's model bit never fires because of the model itself *)
 Theorem C07_slice_verdict : forall c, returned c = true ->
@@ -126,4 +140,5 @@ Print Assumptions C07_keys_distinct.
 Print Assumptions C07_ledger_census.
 Print Assumptions C07_slice_total.
 Print Assumptions C07_visitor_cursor_total.
+Print Assumptions C07_tokenizer_total.
 Print Assumptions C07_slice_verdict.
